@@ -277,12 +277,24 @@ def gen(rng, tier):
         for _ in range(per_cfg):
             cases.append({"cfg": cfg, "abs": [], "events": gen_history(rng, cfg, rng.randint(*steps)),
                           "leds": gen_layout(rng, cfg), "tag": "random"})
+    # what else the OpenRGB server lists: in 4 cases of 10 other controllers come BEFORE the keyboard (mainboard, DRAM, GPU, mouse, a keyboard
+    # that is not a hidraw device) - the frames must still reach the keyboard's controller index
+    OTHERS = [{"type": 0, "name": "Fake Mainboard", "location": "I2C: /dev/i2c-0, address 0x27", "leds": 5},
+              {"type": 1, "name": "Fake DRAM", "location": "I2C: /dev/i2c-1, address 0x58", "leds": 8},
+              {"type": 2, "name": "Fake GPU", "location": "PCI: 0000:01:00.0", "leds": 1},
+              {"type": 6, "name": "Fake Mouse", "location": "HID: /dev/hidraw3", "leds": 2},
+              {"type": 5, "name": "Fake Bluetooth Keyboard", "location": "BT: aa:bb:cc:dd:ee:ff", "leds": 30},
+              {"type": 4, "name": "Fake LED Strip", "location": "COM3", "leds": 0}]
+    for i, c in enumerate(cases):
+        if i % 5 in (1, 3):
+            c["others"] = rng.sample(OTHERS, rng.randint(1, 3))
     return cases
 
 
 # ---------------------------------------------------------------------------------------------- implementation + Coq
 def run_impl(binary, cases, parallel=12):
-    inp = {"cases": [{"cfg": c["cfg"], "abs": c["abs"], "events": c["events"], "leds": c["leds"]} for c in cases], "parallel": parallel}
+    inp = {"cases": [{"cfg": c["cfg"], "abs": c["abs"], "events": c["events"], "leds": c["leds"], "others": c.get("others", [])} for c in cases],
+           "parallel": parallel}
     out, err = run_harness(binary, "led", inp, timeout=900, prefix=MOUNT_NS)
     if out is None:
         return None, None, err
@@ -442,7 +454,15 @@ def run(run_, cases=None):
         run_.violation("KeyToLedName of the implementation differs from the table the model's layouts are built from: %s" % diff,
                        {"theorem_or_correspondence": corr + " (LED name table)", "difference": diff}, no_input=True)
         return
-    broken = [i for i, r in enumerate(results) if not usable(r)]
+    mis = [i for i, r in enumerate(results) if r.get("misaddressed")]
+    for i in mis[:2]:
+        run_.violation("the LED frames are addressed to the wrong OpenRGB controller: %d UpdateLEDs packet(s) went to a controller that is not the keyboard "
+                       "(the server lists %d other controller(s) before it: %s); server: %s (case %d, %s)" % (
+                           results[i]["misaddressed"], len(cases[i].get("others", [])), [o["name"] for o in cases[i].get("others", [])],
+                           (results[i].get("server_errors") or [""])[0], i, cases[i].get("tag")),
+                       {"kind": "led-history", "case": {kk: v for kk, v in cases[i].items() if kk != "tag"}, "implementation_observation":
+                        {kk: v for kk, v in results[i].items() if kk in ("misaddressed", "server_errors", "frames", "conns")}, "monitor": mon})
+    broken = [i for i, r in enumerate(results) if not usable(r) and i not in mis]
     for i in broken[:3]:
         r = results[i]
         why = ("panicked: %s" % r["panic"]) if r.get("panic") else ("hung" if r.get("hang") else (r.get("err") or "LED refresh stopped: no frame was received after a step"))
